@@ -75,6 +75,33 @@ def observe_route(tree):
     return keys
 
 
+def static_values(res):
+    """static attribute values and text with character references of every shape, rendered under node: the runtime must
+    receive what the Coq model of the entity scanner (Model/TextDecode.v) decodes from the source spelling"""
+    p = harness_run(["entscan", res.tier + "-render", res.seed], timeout=3000)
+    jobs = [json.loads(l) for l in p.stdout.decode("utf8").split("\n") if l]
+    model = modelrun([j["model_cmd"] for j in jobs])
+    out = node_jobs([{"op": "run", "id": k, "bundle": j["bundle"], "path": "p", "slotValues": {"$o": {}},
+                      "steps": [{"create": {"$o": {}}}]} for k, j in enumerate(jobs)], shards=8)
+    found = 0
+    for j, m, o in zip(jobs, model, out):
+        if m.startswith(("ERR", "EXC")):
+            raise Infra("entscan model failed: %s" % m)
+        want = dec(m)
+        if o.get("error"):
+            got_attr = got_text = "throws: " + o["error"][:80]
+        else:
+            n = o["trees"][0][0]
+            got_attr = dict((k, v) for k, v in n.get("attrs", [])).get("r:a", {}).get("v")
+            got_text = n["ch"][0]["text"] if n.get("ch") else None
+        if got_attr != want or got_text != "[" + want + "]":
+            found += 1
+            if found <= 4:
+                res.violation("static value %r reaches the runtime as attribute %r / text %r, the WXML spelling denotes %r" % (
+                    j["text"], got_attr, got_text, want), {"src": j["src"], "attribute": got_attr, "text": got_text, "expected": want})
+    return len(jobs), found
+
+
 def attr_routes(res):
     p = harness_run(["attrroute", res.tier, res.seed], timeout=3000)
     jobs = [json.loads(l) for l in p.stdout.decode("utf8").split("\n") if l]
@@ -146,10 +173,13 @@ def run(res):
                     {"src": j["src"], "data": j["data"], "slotValues": j["slotValues"], "generated_tree": got, "spec_tree": spec})
     n_route, f_route = attr_routes(res)
     found += f_route
+    n_sv, f_sv = static_values(res)
+    found += f_sv
+    res.notes["static_value_cases"] = n_sv
     if not ok:
         res.violation(what, {"obligation": "Properties/C04.v"}, no_input=(found == 0))
     res.notes["attribute_route_cases"] = n_route
-    res.cov["evaluations"] = len(jobs_in) + n_route
+    res.cov["evaluations"] = len(jobs_in) + n_route + n_sv
     res.cov["distinct_nontrivial"] = nontrivial
     res.cov["rule"] = ("generated templates (every element kind and attribute family, quote styles, self-closing vs paired, entities, "
                        "whitespace, comments between if-branches) x 2 integer/string/array/object data environments; compared = the "
